@@ -65,12 +65,21 @@ Fixpoint parent_paths (parts : list str) (cur : str) (first : bool) : list str :
   end.
 Definition paths_of (n : str) : list str := parent_paths (split_byte n delim) [] true.
 
-(** HandleCreate's loop body: [if checkErr == nil && !exists { _, _ = Create(...) }] *)
+(** utils.NormalizeMailboxName: every case variant of INBOX is INBOX *)
+Definition normalize_name (n : str) : str := if equal_fold n INBOX then INBOX else n.
+
+(** one step of the parent loops (HandleCreate; db.createParentMailboxesPerUser used by
+    RenameMailboxPerUser and renameInboxPerUser): a case variant of INBOX is skipped, an
+    existing name is skipped, the empty path is skipped (RENAME) / its error ignored (CREATE) *)
 Definition create_missing_step (bs : list mbox) (p : str) : list mbox :=
-  if exists_box bs p then bs
+  if equal_fold p INBOX then bs
+  else if exists_box bs p then bs
   else match create_box bs p with Some bs' => bs' | None => bs end.
 Definition create_missing (ps : list str) (bs : list mbox) : list mbox :=
   fold_left create_missing_step ps bs.
+
+(** mailbox.isRoleNamespace: "Roles" and everything below it is reserved for role mailboxes *)
+Definition is_role_namespace (n : str) : bool := str_eqb n (S_ "Roles") || has_prefix n (S_ "Roles/").
 
 (** ---- CREATE ---- *)
 Definition handle_create (st : store) (parts : list str) : store * res :=
@@ -79,6 +88,7 @@ Definition handle_create (st : store) (parts : list str) : store * res :=
   let name := trim_suffix name [delim] in
   if is_nil name then (st, RNo)
   else if str_eqb (to_upper name) INBOX then (st, RNo)
+  else if is_role_namespace name then (st, RNo)
   else if exists_box (boxes st) name then (st, RNo)
   else
     let bs1 := if contains_byte name delim then create_missing (paths_of name) (boxes st) else boxes st in
@@ -98,7 +108,7 @@ Definition db_delete (bs : list mbox) (n : str) : list mbox * res :=
   if str_eqb (to_upper n) INBOX then (bs, RNo)
   else if negb (exists_box bs n) then (bs, RNo)
   else if existsb (fun b => child_range n (mb_name b)) bs then (bs, RNo)
-  else if existsb (fun d => equal_fold n d) protected_names then (bs, RNo)
+  else if existsb (fun d => str_eqb n d) protected_names then (bs, RNo)
   else (filter (fun b => negb (str_eqb (mb_name b) n)) bs, ROk).
 
 Definition handle_delete (st : store) (parts : list str) : store * res :=
@@ -131,18 +141,6 @@ Fixpoint child_updates (old new : str) (cs : list str) : option (list (str * str
       end
   end.
 
-(** RenameMailboxPerUser's parent loop: an error other than "already exists" aborts *)
-Fixpoint rename_parents (ps : list str) (bs : list mbox) : option (list mbox) :=
-  match ps with
-  | [] => Some bs
-  | p :: ps' =>
-      if exists_box bs p then rename_parents ps' bs
-      else match create_box bs p with
-           | Some bs' => rename_parents ps' bs'
-           | None => None       (* only the empty path: "mailbox name cannot be empty" *)
-           end
-  end.
-
 (** renameInboxPerUser (after "fix: RENAME INBOX keeps the UID counter with the moved
     messages"): the new row inherits INBOX's uid_next, the links move with their uids *)
 Definition rename_inbox (bs : list mbox) (new : str) : list mbox * res :=
@@ -150,8 +148,9 @@ Definition rename_inbox (bs : list mbox) (new : str) : list mbox * res :=
   else match find (fun b => str_eqb (mb_name b) INBOX) bs with
        | None => (bs, RNo)
        | Some ib =>
-           match create_box bs new with
-           | None => (bs, RNo)
+           let bs0 := create_missing (paths_of new) bs in      (* parents: not part of any transaction *)
+           match create_box bs0 new with
+           | None => (bs0, RNo)
            | Some bs1 =>
                (map (fun b => if str_eqb (mb_name b) INBOX then MkBox INBOX [] (mb_next b)
                               else if str_eqb (mb_name b) new then MkBox new (mb_msgs ib) (mb_next ib)
@@ -165,21 +164,19 @@ Definition db_rename (bs : list mbox) (old new : str) : list mbox * res :=
   else if negb (exists_box bs old) then (bs, RNo)
   else if exists_box bs new then (bs, RNo)
   else
-    match (if contains_byte new delim then rename_parents (paths_of new) bs else Some bs) with
-    | None => (bs, RNo)     (* the empty path is the first one: nothing was created before it *)
-    | Some bs1 =>
-        (* tx: rename the row, select the rows in the child range, update them one by one *)
+    (* one transaction: parents, children selected BEFORE the row is renamed, the row, the
+       children one by one; any failure rolls everything back *)
+    let bs1 := create_missing (paths_of new) bs in
+    let cs := filter (child_range old) (names bs1) in
+    match child_updates old new cs with
+    | None => (bs, RPanic)
+    | Some us =>
         match upd_name old new bs1 with
-        | None => (bs1, RNo)
+        | None => (bs, RNo)
         | Some bs2 =>
-            let cs := filter (child_range old) (names bs2) in
-            match child_updates old new cs with
-            | None => (bs1, RPanic)                 (* deferred tx.Rollback; the parents stay *)
-            | Some us =>
-                match apply_updates us bs2 with
-                | None => (bs1, RNo)                (* UNIQUE failure: rollback; the parents stay *)
-                | Some bs3 => (bs3, ROk)
-                end
+            match apply_updates us bs2 with
+            | None => (bs, RNo)                (* UNIQUE failure *)
+            | Some bs3 => (bs3, ROk)
             end
         end
     end.
@@ -189,6 +186,7 @@ Definition handle_rename (st : store) (parts : list str) : store * res :=
   let old := trim (nth 2 parts []) [dq] in
   let new := trim (nth 3 parts []) [dq] in
   if is_nil old || is_nil new then (st, RBad)
+  else if is_role_namespace new then (st, RNo)
   else let '(bs, r) := db_rename (boxes st) old new in (MkStore bs (subs st) (next_msg st), r).
 
 (** ---- SUBSCRIBE / UNSUBSCRIBE ---- *)
@@ -208,13 +206,15 @@ Definition handle_subscribe (st : store) (parts : list str) : store * res :=
   if length parts <? 3 then (st, RBad) else
   let name := unquote1 (nth 2 parts []) in
   if is_nil name then (st, RBad)
-  else (MkStore (boxes st) (sub_insert (subs st) name) (next_msg st), ROk).
+  else let name := normalize_name name in
+       (MkStore (boxes st) (sub_insert (subs st) name) (next_msg st), ROk).
 
 Definition handle_unsubscribe (st : store) (parts : list str) : store * res :=
   if length parts <? 3 then (st, RBad) else
   let name := unquote1 (nth 2 parts []) in
   if is_nil name then (st, RBad)
-  else if mem_str name (subs st)
+  else let name := normalize_name name in
+       if mem_str name (subs st)
        then (MkStore (boxes st) (filter (fun s => negb (str_eqb s name)) (subs st)) (next_msg st), ROk)
        else (st, RNo).
 
@@ -241,8 +241,13 @@ Definition handle_lsub (st : store) (parts : list str) : store * res * list str 
   let pattern := parse_quoted_string (nth 3 parts []) in
   if is_nil pattern then (st, ROk, [])
   else
-    let subs' := if is_nil (subs st) then fold_left sub_insert default_subs [] else subs st in
-    (MkStore (boxes st) subs' (next_msg st), ROk, map quote_string (filter_mailboxes subs' reference pattern)).
+    (* an empty list is presented as the defaults, nothing is written; FilterMailboxes' INBOX
+       is kept only if (a case variant of) INBOX is subscribed *)
+    let subs' := if is_nil (subs st) then default_subs else subs st in
+    let ms := filter_mailboxes subs' reference pattern in
+    let ms := if existsb (fun m => equal_fold m INBOX) subs' then ms
+              else filter (fun m => negb (str_eqb m INBOX)) ms in
+    (st, ROk, map quote_string ms).
 
 (** ---- STATUS ---- *)
 Definition sp_ : str := [" "%char].
@@ -253,7 +258,8 @@ Definition handle_status (st : store) (parts : list str) : store * res * list st
   if length parts <? 4 then (st, RBad, []) else
   let name := parse_quoted_string (nth 2 parts []) in
   if is_nil name then (st, RBad, [])
-  else match find (fun b => str_eqb (mb_name b) name) (boxes st) with
+  else let name := normalize_name name in
+       match find (fun b => str_eqb (mb_name b) name) (boxes st) with
        | None => (st, RNo, [])
        | Some b =>
            let items := trim_space (trim (join (skipn 3 parts) sp_) (S_ "()")) in
@@ -283,7 +289,7 @@ Definition add_link (b : mbox) (tok : Z) : mbox * bool :=
 
 Definition handle_append (st : store) (parts : list str) : store * res :=
   if length parts <? 3 then (st, RBad) else
-  let folder := trim (nth 2 parts []) [dq] in
+  let folder := normalize_name (trim (nth 2 parts []) [dq]) in
   match find (fun b => str_eqb (mb_name b) folder) (boxes st) with
   | None => (st, RNo)
   | Some b =>
